@@ -303,6 +303,151 @@ fn client_one(name: &str, req: &ClientReq, frame: &[u8], c: &Corruption, idx: us
     }
 }
 
+/// Uncorrupted traffic on a USED link: streams of valid frames where every frame is cut at a
+/// chosen offset (all offsets are visited across cases). The receive buffer then still holds
+/// bytes of earlier frames beyond its end, which a length derivation that peeks too early
+/// would pick up. Oracle: reference server on the whole stream + equality with the uncut run.
+fn used_link_server(seed: u64, n: u64, ev: &mut Evidence) {
+    let mut rng = Rng::sub(seed, 3106, n);
+    let mut stores = BTreeMap::new();
+    stores.insert(UNIT, Store::new(seed ^ n, UNIT, 0));
+    let nframes = 2 + rng.usize_below(8);
+    let mut frames: Vec<Vec<u8>> = vec![];
+    for _ in 0..nframes {
+        // valid requests only, biased to the variable-length ones and to 0xF8..0xFF bytes
+        let pdu = match rng.below(6) {
+            0 | 1 => {
+                let qty = 1 + rng.below(40) as u16;
+                let nb = (qty as usize).div_ceil(8);
+                let mut p = vec![15u8, rng.u8(), rng.u8() / 2, 0, qty as u8, nb as u8];
+                p.extend((0..nb).map(|_| if rng.chance(1, 2) { 0xFF } else { rng.u8() }));
+                p
+            }
+            2 | 3 => {
+                let qty = 1 + rng.below(20) as u16;
+                let mut p = vec![16u8, rng.u8(), rng.u8() / 2, 0, qty as u8, (2 * qty) as u8];
+                p.extend((0..2 * qty).map(|_| if rng.chance(1, 2) { 0xFF } else { rng.u8() }));
+                p
+            }
+            4 => vec![6u8, rng.u8(), rng.u8(), 0xFF, 0xFC | (rng.u8() & 3)],
+            _ => vec![3u8, rng.u8(), rng.u8() / 2, 0, 1 + rng.u8() % 100],
+        };
+        frames.push(rtu_frame(UNIT, &pdu));
+    }
+    let stream: Vec<u8> = frames.concat();
+    let mut cut_script = vec![];
+    for (i, f) in frames.iter().enumerate() {
+        let c = 1 + ((n as usize + i * 3) % (f.len() - 1));
+        cut_script.push(In::Chunk(f[..c].to_vec()));
+        cut_script.push(In::Chunk(f[c..].to_vec()));
+        ev.set("cut_offsets", c.to_string());
+    }
+    cut_script.push(In::Eof);
+    let mk = |script: Vec<In>| ServerCase { framing: Framing::Rtu, stores: stores.clone(), policy: None, script, decode: ((n % 4) as u8, (n % 3) as u8, 0), commands: vec![] };
+    let whole = mk(vec![In::Chunk(stream.clone()), In::Eof]);
+    let cut = mk(cut_script);
+    let o1 = run_server_case(&whole);
+    let o2 = run_server_case(&cut);
+    ev.eval();
+    ev.count("used_link_streams", 1);
+    ev.count("used_link_frames", nframes as u64);
+    for (case, obs, how) in [(&whole, &o1, "whole"), (&cut, &o2, "cut_inside_every_frame")] {
+        let (disc, _) = compare_server(case, obs);
+        for x in disc {
+            ev.violation(
+                format!("used_link:server:{how}:{}", x.sig),
+                format!("stream of {nframes} valid RTU requests delivered {how}: {}", x.what),
+                json!({"n": n, "stream": hex(&stream), "how": how}),
+            );
+        }
+    }
+    if o1.out != o2.out || o1.log != o2.log {
+        ev.violation("used_link:server:partition_dependence", "the same valid RTU byte stream gave different results when each frame was cut in two".to_string(), json!({"n": n, "stream": hex(&stream)}));
+    }
+    ev.class("server|used_link|valid_frames_cut_at_every_offset");
+}
+
+/// client side of the same idea: consecutive requests on one session, each genuine response
+/// cut at a chosen offset
+fn used_link_client(seed: u64, n: u64, ev: &mut Evidence) {
+    let mut rng = Rng::sub(seed, 4106, n);
+    let nreq = 2 + rng.usize_below(6);
+    let reqs: Vec<ClientReq> = (0..nreq)
+        .map(|_| match rng.below(5) {
+            0 => ClientReq::WriteSingleReg { addr: 0xFC00 | rng.u16() % 1024, value: 0xFFFF },
+            1 => ClientReq::WriteMultiRegs { start: 0xFD00 | (rng.u16() % 200), values: vec![0xFFFF; 1 + rng.usize_below(5)] },
+            2 => ClientReq::Read { kind: Kind::ReadCoils, start: rng.u16() / 2, count: 1 + rng.below(200) as u16 },
+            _ => ClientReq::Read { kind: Kind::ReadHolding, start: rng.u16() / 2, count: 1 + rng.below(60) as u16 },
+        })
+        .collect();
+    let fill = rng.next_u64() | 0xFFFF_0000_FFFF_0000;
+    let reqs2 = reqs.clone();
+    let result = run_paused(|| async move {
+        let seq = Seq::default();
+        let (io, handle) = sim_io(vec![], seq.clone());
+        let st = Arc::new(Mutex::new((RequestAssembler::new(Framing::Rtu), 0usize)));
+        let r3 = reqs2.clone();
+        handle.set_responder(Box::new(move |bytes, _| {
+            let mut g = st.lock().unwrap();
+            let frames = g.0.feed(bytes);
+            let mut items = vec![];
+            for f in frames {
+                let k = g.1;
+                g.1 += 1;
+                let Some(r) = r3.get(k) else { continue };
+                let bytes = rtu_frame(f[0], &genuine_reply(r, fill ^ k as u64));
+                let c = 1 + ((n as usize + k * 5) % (bytes.len() - 1));
+                items.push(In::Chunk(bytes[..c].to_vec()));
+                items.push(In::Chunk(bytes[c..].to_vec()));
+            }
+            items
+        }));
+        let (channel, mut sim) = rodbus::verif::client(rodbus::verif::Framing::Rtu, 4, decode_level((0, 0, 0)), None);
+        let task = tokio::spawn(async move { sim.run_session(Box::new(io)).await });
+        channel.enable().await.unwrap();
+        let start = tokio::time::Instant::now();
+        let mut res = vec![];
+        for r in &reqs2 {
+            let slot = Slot::new(start, seq.clone());
+            let _ = submit(&channel, Style::Callback, UNIT, Duration::from_millis(200), r, slot.clone()).await;
+            let _ = tokio::time::timeout(Duration::from_secs(5), slot.wait()).await;
+            settle().await;
+            res.push(slot.first().map(|c| c.res));
+        }
+        drop(channel);
+        let _ = tokio::time::timeout(Duration::from_secs(60), task).await;
+        res
+    });
+    ev.eval();
+    ev.count("used_link_client_sessions", 1);
+    match result {
+        Err(p) => ev.violation(format!("client_panic:{}", crate::util::panic_site(&p)), format!("client panicked: {p}"), json!({"n": n})),
+        Ok(res) => {
+            for (k, (r, got)) in reqs.iter().zip(res.iter()).enumerate() {
+                let want = decode_response(r, &genuine_reply(r, fill ^ k as u64));
+                match got {
+                    Some(g) => {
+                        if let Err(why) = result_matches(&want, r, g) {
+                            ev.violation(
+                                format!("used_link:client:valid_response_refused:{}:{}", r.kind().name(), g.class()),
+                                format!("request #{k} {} on a used serial session, genuine response cut in two: {why}, got {}", r.describe(), g.class()),
+                                json!({"n": n, "k": k}),
+                            );
+                            break;
+                        }
+                        ev.count("used_link_client_responses", 1);
+                    }
+                    None => {
+                        ev.violation("used_link:client:no_completion".to_string(), format!("request #{k} never completed"), json!({"n": n}));
+                        break;
+                    }
+                }
+            }
+        }
+    }
+    ev.class("client|used_link|valid_responses_cut_at_every_offset");
+}
+
 /// emission monitor: every RTU frame produced by server and client sessions
 fn emission(seed: u64, n: u64, ev: &mut Evidence) {
     // server side: C01-style RTU sessions
@@ -410,9 +555,40 @@ pub fn run(args: &Args) -> i32 {
         }
         ev.class(format!("server|{name}|clean|3_chunkings"));
     }
+    let ul = args.tier.pick(60_000u64, 2_000_000);
+    for p in parallel(args.jobs, ul, Evidence::new, |n, ev| {
+        if n % 3 == 2 {
+            used_link_client(seed, n / 3, ev)
+        } else {
+            used_link_server(seed, n - n / 3, ev)
+        }
+    }) {
+        ev.merge(p);
+    }
     let em = args.tier.pick(3_000u64, 100_000);
     for p in parallel(args.jobs, em, Evidence::new, |n, ev| emission(seed, n, ev)) {
         ev.merge(p);
+    }
+    // black box: the real RTU server task on a pseudo terminal (net engine)
+    {
+        let exe = std::env::current_exe().ok().and_then(|p| p.parent().map(|d| d.join("vnet")));
+        let out = verif_root().join("out").join(format!("c06pty-{}.json", std::process::id()));
+        let _ = std::fs::create_dir_all(verif_root().join("out"));
+        match exe {
+            Some(exe) if exe.exists() => {
+                let st = std::process::Command::new(&exe)
+                    .args(["c06pty", "--tier", args.tier.name(), "--seed", &(args.seed as i64).to_string(), "--out"])
+                    .arg(&out)
+                    .stdout(std::process::Stdio::null())
+                    .status();
+                match (st, std::fs::read_to_string(&out).ok().and_then(|t| serde_json::from_str::<serde_json::Value>(&t).ok())) {
+                    (Ok(s), Some(v)) if s.success() => ev.merge(Evidence::from_json(&v)),
+                    _ => ev.count("pty_leg_not_run", 1),
+                }
+                let _ = std::fs::remove_file(&out);
+            }
+            _ => ev.count("pty_leg_not_run", 1),
+        }
     }
     ev.sample(json!({"corruptions_enumerated_per_base_frame": enumerated}));
     ev.sample(json!({"base_request_frames": base_requests().iter().map(|(n, f)| json!({"name": n, "hex": hex(f)})).collect::<Vec<_>>()}));
@@ -430,6 +606,8 @@ pub fn run(args: &Args) -> i32 {
             ("server_corruptions_executed".into(), args.tier.pick(150_000, 5_000_000)),
             ("client_corruptions_executed".into(), args.tier.pick(100_000, 1_000_000)),
             ("emitted_frames_crc_checked".into(), args.tier.pick(5_000, 200_000)),
+            ("used_link_frames".into(), args.tier.pick(100_000, 3_000_000)),
+            ("used_link_client_responses".into(), args.tier.pick(30_000, 1_000_000)),
         ],
         min_classes: 100,
     };
